@@ -145,7 +145,63 @@ def environments(check, tier):
     s.done()
 
 
+def input_mode_switch_failures():
+    """(fresh interpreter) one real Input over a pipe whose `keynames` is changed between keypresses, in every order of the three modes:
+    each keypress is named in the mode set when it is requested, bytes naming returns exactly its bytes.  -> [[order, detail], ...]"""
+    import itertools as _it, os
+    import curtsies.input as ci
+    from curtsies import events
+
+    class S:
+        def __init__(self, fd):
+            self.fd = fd
+
+        def fileno(self):
+            return self.fd
+    keys = [b"a", b"\x1b[A", b"\x1bOP", "\u00e9".encode("utf-8"), b"\x7f"]
+    ci.getpreferredencoding = lambda: "utf-8"
+    out = []
+    for order in _it.product(list(events.Keynames), repeat=3):
+        r, w = os.pipe()
+        try:
+            inp = ci.Input(in_stream=S(r), keynames=order[0], paste_threshold=None)
+            for k, mode in enumerate(order):
+                inp.keynames = mode
+                for key in keys:
+                    os.write(w, key)
+                    got = inp.send(0)
+                    want = key if mode == events.Keynames.BYTES else events.get_key([key[i:i + 1] for i in range(len(key))], "utf-8", mode, True)
+                    if got != want:
+                        out.append([[m.name for m in order], f"keypress {key!r} requested as #{k + 1} mode {mode.name}: Input returned {got!r}, the decoder in that mode gives {want!r}"])
+                        break
+                if out and out[-1][0] == [m.name for m in order]:
+                    break
+        finally:
+            os.close(r)
+            os.close(w)
+        if len(out) >= 4:
+            break
+    return out
+
+
+def input_mode_switch(check, tier):
+    from bounded.common import run_in_environment
+    s = Suite(check, "C20.input_mode_switch", "one real Input over a pipe, its keynames attribute set to every sequence of 3 naming modes (27 orders), 5 keys "
+              "(a character, two table sequences, a 2-byte character, DEL) requested in each: every keypress named in the mode in force, bytes naming "
+              "exactly the bytes", bound="27 orders x 15 keypresses", exhaustive=False)
+    ran, res = run_in_environment("props.C20", "input_mode_switch_failures", {})
+    for k in range(27):
+        s.case(("order", k))
+    if not ran:
+        check.note(f"C20.input_mode_switch: the child did not run: {res}")
+    else:
+        for order, d in res:
+            s.fail("C20.input.mode_switch", dict(order=order), d[:300])
+    s.done()
+
+
 def run(check, tier, seed):
     deductive(check, tier)
     bounded(check, tier)
     environments(check, tier)
+    input_mode_switch(check, tier)
